@@ -82,18 +82,19 @@ DIV = [Fr(2), Fr(-1), Fr(1, 2), Fr(4), Fr(1, 4), Fr(-2), Fr(0)]    # divisions s
 
 
 CLASSES = {  # class -> admissible parameter tuples (dyadic; the first one is the historical default).  Edge values on
-    # purpose: mu = 0, beta = 0, rho = 0, mu = L where allowed, L = 1 (factors that disappear), negative mu of symmetric operators
-    "ConvexFunction": [[]], "StronglyConvexFunction": [["1/4"], ["0"], ["1"], ["2"]], "ConvexLipschitzFunction": [["3/2"], ["1"], ["1/2"], ["4"]],
-    "ConvexIndicatorFunction": [["5/2"], ["1"], ["1/2"]], "ConvexSupportFunction": [["3/2"], ["1"], ["4"]], "ConvexQGFunction": [["2"], ["1"], ["1/2"]],
+    # purpose: mu = 0, beta = 0, rho = 0, mu = L where allowed, L = 1 (factors that disappear), negative mu of symmetric operators,
+    # and the value 0 of a diameter / Lipschitz constant / operator norm (singleton, constant function, null operator) where no formula divides by it
+    "ConvexFunction": [[]], "StronglyConvexFunction": [["1/4"], ["0"], ["1"], ["2"]], "ConvexLipschitzFunction": [["3/2"], ["1"], ["1/2"], ["4"], ["0"]],
+    "ConvexIndicatorFunction": [["5/2"], ["1"], ["1/2"], ["0"]], "ConvexSupportFunction": [["3/2"], ["1"], ["4"], ["0"]], "ConvexQGFunction": [["2"], ["1"], ["1/2"]],
     "RsiEbFunction": [["1/4", "2"], ["1", "1"], ["1/2", "4"], ["0", "2"]], "SmoothConvexFunction": [["2"], ["1"], ["1/2"], ["4"]],
     "SmoothConvexLipschitzFunction": [["2", "3/2"], ["1", "1"], ["4", "1/2"]],
     "SmoothFunction": [["2"], ["1"], ["1/4"]], "SmoothStronglyConvexFunction": [["1/4", "2"], ["0", "1"], ["1/2", "4"], ["1", "2"]],
     "SmoothStronglyConvexQuadraticFunction": [["1/4", "2"], ["0", "1"], ["1", "4"], ["1/2", "1"]],
     "CocoerciveOperator": [["1/4"], ["1"], ["2"], ["0"]], "CocoerciveStronglyMonotoneOperator": [["1/4", "1/2"], ["0", "1/2"], ["1/4", "0"], ["0", "0"], ["1", "1"]],
-    "LinearOperator": [["2"], ["1"], ["1/2"]],
-    "LipschitzOperator": [["2"], ["1"], ["1/4"]], "LipschitzStronglyMonotoneOperator": [["1/4", "2"], ["0", "1"], ["1", "2"], ["1", "1"]], "MonotoneOperator": [[]],
-    "NegativelyComonotoneOperator": [["1/8"], ["1"], ["0"]], "NonexpansiveOperator": [[]], "SkewSymmetricLinearOperator": [["2"], ["1"], ["1/2"]],
-    "StronglyMonotoneOperator": [["1/4"], ["1"], ["0"]], "SymmetricLinearOperator": [["1/4", "2"], ["0", "1"], ["-1", "1"], ["1", "1"], ["-1/2", "2"]],
+    "LinearOperator": [["2"], ["1"], ["1/2"], ["0"]],
+    "LipschitzOperator": [["2"], ["1"], ["1/4"], ["0"]], "LipschitzStronglyMonotoneOperator": [["1/4", "2"], ["0", "1"], ["1", "2"], ["1", "1"]], "MonotoneOperator": [[]],
+    "NegativelyComonotoneOperator": [["1/8"], ["1"], ["0"]], "NonexpansiveOperator": [[]], "SkewSymmetricLinearOperator": [["2"], ["1"], ["1/2"], ["0"]],
+    "StronglyMonotoneOperator": [["1/4"], ["1"], ["0"]], "SymmetricLinearOperator": [["1/4", "2"], ["0", "1"], ["-1", "1"], ["1", "1"], ["-1/2", "2"], ["0", "0"], ["-1", "0"]],
 }
 
 
